@@ -477,3 +477,35 @@ Proof. vm_compute. reflexivity. Qed.
 Example ex_checker_rejects_lost_task :
   case_ok (CE2E false 2 [[(1%nat, 5)]; [(1%nat, 7)]] [(1%nat, 5); (1%nat, 7)] [0; 5]) = false.
 Proof. vm_compute. reflexivity. Qed.
+
+(* ================= histories with re-runs ================= *)
+Require Import BS.Gen.C20_params.
+
+(* Whatever the switch generated from worker.Run says: on the local executor always, on
+   bigmachine when the worker resets its scope or no task runs twice, the result reports
+   every task's LAST run once - recomputation does not change the total. *)
+Theorem hist_total bigm reg tasks :
+  (bigm = false \/ worker_run_resets_scope = true \/
+   forall runs, In runs tasks -> (length runs <= 1)%nat) ->
+  (forall runs, In runs tasks -> runs_ok reg runs) ->
+  exists w, hist_model bigm reg tasks = (w, Ok tt) /\
+  forall m, (m < reg)%nat -> peek w 0 m = wrap (sum_incs m (last_runs tasks)).
+Proof.
+  intros Cond Ck. unfold hist_model. destruct bigm.
+  - destruct Cond as [C|C]; [discriminate|].
+    destruct (result_total_bigmachine_runs worker_run_resets_scope reg tasks C Ck) as (w & E & _ & P). eauto.
+  - destruct (result_total_local_runs reg tasks Ck) as (w & E & _ & P). eauto.
+Qed.
+
+(* the switch as generated now: the worker does not reset; see bigmachine_recompute_overcounts_refuted *)
+Example ex_hist_local_vs_bigmachine :
+  let tasks := [[[(1%nat, 21)]; [(1%nat, 21)]]; [[(1%nat, 4)]]] in
+  (let '(w, r) := run_local_runs 2 tasks in (r, peek w 0 1)) = (Ok tt, 25) /\
+  (let '(w, r) := run_bigmachine_runs true 2 tasks in (r, peek w 0 1)) = (Ok tt, 25) /\
+  (let '(w, r) := run_bigmachine_runs false 2 tasks in (r, peek w 0 1)) = (Ok tt, 46).
+Proof. repeat split; vm_compute; reflexivity. Qed.
+
+Example ex_checker_rejects_double_count :
+  case_ok (CHist false 2 [[[(1%nat, 21)]; [(1%nat, 21)]]] [(1%nat, 21)] [0; 42]) = false /\
+  case_ok (CHist false 2 [[[(1%nat, 21)]; [(1%nat, 21)]]] [(1%nat, 21)] [0; 21]) = true.
+Proof. split; vm_compute; reflexivity. Qed.
